@@ -2,6 +2,7 @@
 from .families import run_family
 from ..rules import structure as st
 from ..rules import callsites as cs
+from ..rules import kernels
 
 
 def extras():
@@ -14,4 +15,5 @@ def run(rep, fb, tier):
 
 EXTRAS = [
     lambda rep, fb, tier: st.rule_axis(rep, fb, methods=("combinations",), floor=30),
+    lambda rep, fb, tier: kernels.rule_kernel_siblings(rep, fb),
 ]
